@@ -29,7 +29,7 @@ ID = 'C12'
 LEVEL = 'exploration'
 RULE = ('Hypothesis draws a route table (1..2 plugins x 1..3 routes: static with 1..3 URLs / dynamic->Url / dynamic->literal; '
         'regexes from a pool with overlaps), the request (method, path from a pool hitting none/one/several routes, 0..5 '
-        'headers, optional Content-Length body), --rewrite-host-header, and the schedule. '
+        'headers, optional Content-Length body), --rewrite-host-header, whether the first upstream connect is refused, and the schedule; plus live conversations (1..3 keep-alive requests, drawn segmentation, responses 0..300 KB) through routes to real TLS origins named by registered name / IPv4 / IPv6 literal / default port 443. '
         'Non-trivial: table has >= 2 routes and the path matches >= 1; distinct by case hash.')
 ASSUMPTIONS = ['python re.match as the matcher model (the documentation says routes are regular expressions)', 'h11 + raw header splitter']
 
